@@ -21,4 +21,5 @@ def run(ctx, rep):
     fixtures.run_controls(rep, ['E4'], lambda: ctx.reload())
     rep.rule('E4', e4_bitseq.__doc__.strip().split('\n')[0])
     e4_bitseq.run(facts, rep)
+    e4_bitseq.check_display(facts, rep)
     rep.callsites += sum(len(facts.bodies[k].calls()) for k in rep.functions if k in facts.bodies)
